@@ -258,8 +258,48 @@ def step_level(ctx):
     ctx.count('strip_exception_details:texts', len(msgs))
 
 
+def _history(docs, shared):
+    """the doctests of one run, one after the other, all handed the same default-options dict (as runner and plugin do)"""
+    from xdoctest import doctest_example
+    import contextlib, io
+    res = []
+    for doc in docs:
+        ex = doctest_example.DocTest(docsrc=doc, lineno=1)
+        ex.config['default_runtime_state'] = shared
+        with contextlib.redirect_stdout(io.StringIO()):
+            try:
+                res.append(bool(ex.run(verbose=0, on_error='return')['passed']))
+            except BaseException as e:      # noqa
+                res.append('raised %s' % type(e).__name__)
+    return res
+
+
+def option_histories(ctx):
+    """'under the active flags': the flags of THIS doctest.  IGNORE_EXCEPTION_DETAIL / -ELLIPSIS switched by a block directive of an
+    earlier doctest of the same run must not decide how a later doctest's expected exception is compared"""
+    n = 0
+    for dflt in ({}, {'ELLIPSIS': True}, {'NORMALIZE_WHITESPACE': True}, {'IGNORE_EXCEPTION_DETAIL': False}, {'IGNORE_EXCEPTION_DETAIL': True}):
+        for first_dir, later, exp_later in (
+                ('+IGNORE_EXCEPTION_DETAIL', ">>> raise ValueError('actual message')\n%s\nValueError: another message" % HDR, bool(dflt.get('IGNORE_EXCEPTION_DETAIL'))),
+                ('-IGNORE_EXCEPTION_DETAIL', ">>> raise ValueError('actual message')\n%s\nValueError: another message" % HDR, bool(dflt.get('IGNORE_EXCEPTION_DETAIL'))),
+                ('-ELLIPSIS', ">>> raise ValueError('actual message')\n%s\nValueError: actual ..." % HDR, True),
+                ('+IGNORE_WANT', ">>> raise ValueError('actual message')\n%s\nKeyError: actual message" % HDR, False)):
+            docs = ['>>> # xdoctest: %s\n>>> print(1)\n1' % first_dir, later, later]
+            exp = [True, exp_later, exp_later]
+            got = _history(docs, dict(dflt))
+            n += 1
+            if got != exp:
+                ctx.violation('exception-history', {
+                    'what': 'doctests run one after the other over shared default options %r: passed=%r, by construction %r' % (dflt, got, exp),
+                    'history': docs, 'default_runtime_state': dflt, 'expected_pass': exp,
+                    'theorem_or_correspondence': 'C03 on DocTest.run with the flags of an earlier doctest of the run'}, True)
+    ctx.evaluations += n
+    ctx.count('option_histories', n)
+
+
 def run(ctx):
     step_level(ctx)
+    option_histories(ctx)
     # 'exceptions are never swallowed': the context manager around every part lets every exception through (truthy, falsy, BaseException)
     from harness.props import c12
     c12.capture_protocol(ctx)
@@ -301,6 +341,13 @@ def replay(path):
     if d.get('kind') == 'capture-protocol':
         from harness.props import c12
         return c12.replay_capture_protocol(d, path, 'C03')
+    if d.get('kind') == 'exception-history':
+        got = _history(d['history'], dict(d['default_runtime_state']))
+        print('history:\n%s\npassed=%r expected=%r' % ('\n--\n'.join(d['history']), got, d['expected_pass']))
+        if got != d['expected_pass']:
+            print('VIOLATION property=C03 replay=%s' % path)
+            return 1
+        return 0
     if 'doctest' not in d:
         from xdoctest import checker
         t = d.get('text')
